@@ -165,3 +165,20 @@ Example C02_nonvacuous_code :
   C (ex_u [99; 99; 47; 100; 47; 120]%N) (ex_rec 1 None 0) (PBool true) = Some (true, s_redirect) /\
   C (ex_u [98; 98; 47; 100; 47; 120]%N) (ex_rec 1 None 0) (PBool true) = Some (false, s_filters).
 Proof. vm_compute. repeat split. Qed.
+
+(* a visit whose start URL redirects to another host: the hop is consulted with the waiver, requested
+   as a follow-up, and without strong redirects it is refused and nothing is requested *)
+Example C02_nonvacuous_visit :
+  let cfg s := {| c_max_redirects := 3; c_strong_redirects := s; c_password := false; c_robots := false; c_content_on_error := false |} in
+  let consult (u : vstr) (w : bool) := str_eqb (firstn 2 u) [97; 97]%N || w in
+  let server (h : list req) := match h with [_] => Resp 302 (Some [99; 99; 47; 120]%N) | _ => Resp 200 None end in
+  fst (process_item (fun _ l => Some l) (fun _ => true) (cfg true) consult (fun _ => RAllow) server 9 [97; 97; 47]%N)
+  = [EConsult [97; 97; 47]%N false true; EConsult [97; 97; 47]%N false true;
+     ERequest KInitial {| rq_url := [97; 97; 47]%N; rq_pw := false |};
+     EConsult [99; 99; 47; 120]%N true true; ERequest KFollowup {| rq_url := [99; 99; 47; 120]%N; rq_pw := false |};
+     EStatus VDone] /\
+  fst (process_item (fun _ l => Some l) (fun _ => true) (cfg false) consult (fun _ => RAllow) server 9 [97; 97; 47]%N)
+  = [EConsult [97; 97; 47]%N false true; EConsult [97; 97; 47]%N false true;
+     ERequest KInitial {| rq_url := [97; 97; 47]%N; rq_pw := false |};
+     EConsult [99; 99; 47; 120]%N false false; EStatus VSkipped].
+Proof. vm_compute. split; reflexivity. Qed.
